@@ -11,20 +11,29 @@ Ltac Zify.zify_post_hook ::= Z.div_mod_to_equations.
 Lemma zlen_nonneg {A} (l : list A) : 0 <= zlen l.
 Proof. unfold zlen. lia. Qed.
 
+Lemma zget_aux_nth {A} (l : list A) : forall i, 0 <= i -> zget_aux l i = nth_error l (Z.to_nat i).
+Proof.
+  induction l as [|x r IH]; intros i Hi; cbn [zget_aux].
+  - destruct (Z.to_nat i); reflexivity.
+  - destruct (i =? 0) eqn:E.
+    + apply Z.eqb_eq in E. subst. reflexivity.
+    + apply Z.eqb_neq in E. rewrite IH by lia.
+      replace (Z.to_nat i) with (S (Z.to_nat (i - 1))) by lia. reflexivity.
+Qed.
+
 Lemma zget_some {A} (l : list A) (d : A) i :
   0 <= i < zlen l -> zget l i = Some (nth (Z.to_nat i) l d).
 Proof.
   intros Hi. unfold zget, zlen in *.
-  destruct (i <? 0) eqn:E1; [lia|].
-  destruct (Z.of_nat (length l) <=? i) eqn:E2; [lia|]. cbn [orb].
+  destruct (i <? 0) eqn:E1; [lia|]. rewrite zget_aux_nth by lia.
   apply nth_error_nth'. lia.
 Qed.
 
 Lemma zget_none {A} (l : list A) i : ~ (0 <= i < zlen l) -> zget l i = None.
 Proof.
   intros Hi. unfold zget, zlen in *.
-  destruct (i <? 0) eqn:E1; [reflexivity|].
-  destruct (Z.of_nat (length l) <=? i) eqn:E2; [reflexivity|]. lia.
+  destruct (i <? 0) eqn:E1; [reflexivity|]. rewrite zget_aux_nth by lia.
+  apply nth_error_None. lia.
 Qed.
 
 Lemma zget_inv {A} (l : list A) (d : A) i v :
@@ -34,6 +43,26 @@ Proof.
   destruct (Z_lt_dec i 0) as [Hn|Hn]; [rewrite zget_none in Hg by lia; discriminate|].
   destruct (Z_lt_dec i (zlen l)) as [Hl|Hl]; [|rewrite zget_none in Hg by lia; discriminate].
   rewrite (zget_some l d) in Hg by lia. inversion Hg. split; [lia|reflexivity].
+Qed.
+
+Lemma overwrite_ok {A} (src : list A) : forall dst, (length src <= length dst)%nat ->
+  overwrite dst src = Some (src ++ skipn (length src) dst).
+Proof.
+  induction src as [|s sr IH]; intros dst Hl; [destruct dst; reflexivity|].
+  destruct dst as [|x dr]; cbn in Hl; [lia|].
+  cbn [overwrite length skipn app]. rewrite IH by lia. reflexivity.
+Qed.
+
+Lemma write_at_ok {A} (dst : list A) : forall s src, 0 <= s ->
+  (Z.to_nat s + length src <= length dst)%nat ->
+  write_at dst s src = Some (firstn (Z.to_nat s) dst ++ src ++ skipn (Z.to_nat s + length src) dst).
+Proof.
+  induction dst as [|x r IH]; intros s src Hs Hl.
+  - cbn in Hl. assert (s = 0) by lia. subst s. destruct src; cbn in Hl; [reflexivity|lia].
+  - cbn [write_at]. destruct (s =? 0) eqn:E.
+    + apply Z.eqb_eq in E. subst s. cbn [Z.to_nat firstn app Nat.add]. apply overwrite_ok. lia.
+    + apply Z.eqb_neq in E. cbn [length] in Hl. rewrite IH by lia.
+      replace (Z.to_nat s) with (S (Z.to_nat (s - 1))) by lia. reflexivity.
 Qed.
 
 Lemma zrange_length a c : length (zrange a c) = c.
@@ -243,8 +272,8 @@ Section Build.
         znth r i = if (s <=? i) && (i <? s + zlen src) then znth src (i - s) else znth nodes i.
   Proof.
     intros Hs Hb. unfold write_slice.
-    destruct ((0 <=? s) && (s + zlen src <=? zlen nodes)) eqn:E.
-    2:{ apply andb_false_iff in E. destruct E as [E|E]; [apply Z.leb_gt in E|apply Z.leb_gt in E]; lia. }
+    destruct (s <? 0) eqn:E; [apply Z.ltb_lt in E; lia|].
+    rewrite write_at_ok by (unfold zlen in *; lia).
     eexists. split; [reflexivity|].
     pose proof (zlen_nonneg src) as Hsrc.
     assert (L1 : zlen (firstn (Z.to_nat s) nodes) = s) by (apply zlen_firstn; lia).
@@ -459,10 +488,9 @@ Section Accessors.
     induction fuel; intros nodes acc; [reflexivity|].
     cbn [par_loop]. unfold par_guard. cbn [Z.leb Z.compare andb].
     unfold par_level. cbn [Z.to_nat zrange mapO obind].
-    unfold write_slice. change (zlen (@nil D)) with 0. cbn [Z.leb Z.compare andb Z.add].
-    pose proof (zlen_nonneg nodes) as Hl.
-    destruct (0 <=? zlen nodes) eqn:E; [|apply Z.leb_gt in E; lia].
-    cbn [Z.to_nat length firstn Nat.add skipn app obind]. change (0 / 2) with 0. apply IHfuel.
+    unfold write_slice. cbn [Z.ltb Z.compare].
+    replace (write_at nodes 0 []) with (Some nodes) by (destruct nodes; reflexivity).
+    cbn [obind]. change (0 / 2) with 0. apply IHfuel.
   Qed.
 
   Lemma build_cutoff_zero_diverges (d : D) fuel :
